@@ -22,6 +22,10 @@ CLAIMED = {
          "Exploration + fault enumeration: valid generated (matrix, system CSV, user CSV) receive 0-3 catalogue edits; every builder stage must return Ok/Err without panicking, and every accepted dictionary is judged valid (ids inside the matrix in the dimension they index, references resolve, loads, analyses its own words in all modes with all accessors and the partition predicate); small dictionaries are compiled into a sink failing (or short-writing) at EVERY byte offset and the result must be Err. No absence claim.",
          "Known finding F15 (split units that do not concatenate to the key) is excluded from the analysis step by a predicate on the loaded dictionary and pinned by a reproducer. Byte-level fuzzing of the same oracle is the cargo-fuzz target dic_compile (thorough tier only).",
          "DESIGN.md section 4, C06"),
+ "C20": ("property-based testing (proptest): boundary-value generation of every plugin parameter against an explicit in-range predicate (load succeeds iff predicate); matrix differential and assertion-monitored analysis for accepted configurations",
+         "Exploration: matrices n x m with provider ids / costs / inhibited pairs / unk.def lines drawn around {-32769, -32768, -1, 0, n-1, n, n+1, 32767, 32768, 65535, 65536} and POS present/absent x userPOS allow/forbid/missing; loading must return Ok exactly when the predicate holds and never panic; accepted configurations must leave every non-inhibited matrix cell untouched and analyse texts without tripping the matrix index assertions. No absence claim.",
+         "Known finding F6a (Simple/Regex id equal to the matrix size accepted) is excluded by predicate and pinned. Left ids are compared with the second matrix dimension, right ids with the first (what the lattice indexes).",
+         "DESIGN.md section 4, C20"),
  "C07": ("property-based testing (proptest): reference normaliser / collapser / yomigana remover written from the statement; metamorphic context-independence relation; stride/complete sweep over all Unicode scalar values",
          "Exploration: plugin output through the public trait is compared with an independent reference for generated rewrite tables (prefix keys, exempt characters) and texts that exercise both the optimised and the general path; norm(x|y) = norm(x)|norm(y) is checked model-free; prolonged-sound-mark and yomigana settings are generated likewise; every scalar value alone with the shipped table (quick: every 16th, thorough: all 1,112,064). No absence claim.",
          "Trusts the unicode-normalization crate, Rust's to_lowercase/is_uppercase and the reference implementations in harness/src/model/norm.rs. Title-case letters: both readings accepted.",
